@@ -28,7 +28,7 @@ EXIT_OK, EXIT_VIOLATION, EXIT_HARNESS = 0, 1, 2
 class Case:
     def __init__(self, name, fn, max_paths=64, timeout_ms=20000, branch_timeout_ms=4000,
                  portfolio=False, float_modules=(), nsamples=2, conc_rel=1e-6, conc_abs=0.0,
-                 custom=None, budget_s=None, expect_incomplete=False, validate=True):
+                 custom=None, budget_s=None, expect_incomplete=False, validate=True, mode=None):
         self.name = name
         self.fn = fn
         self.max_paths = max_paths
@@ -43,6 +43,7 @@ class Case:
         self.budget_s = budget_s
         self.expect_incomplete = expect_incomplete
         self.validate = validate
+        self.mode = dict(mode or {})
 
 
 # ------------------------------------------------------------------ helpers
@@ -72,6 +73,8 @@ def _run_conc(case, values, rng):
 def _sym_harness(case):
     def h():
         E = SymEnv()
+        sym.MODE.clear()
+        sym.MODE.update(case.mode)
         try:
             with stubs.patched(float_modules=case.float_modules):
                 case.fn(E)
